@@ -9,7 +9,7 @@
    (b) Before 9e87d89 ModuleRef::module_restart went on with the later stages after a panic that the
        stereotype catches (Harness::catch returns Ok): same effect inside a restart event. *)
 From Coq Require Import List NArith Bool.
-From DesVerif Require Import Common.Fuel Life.Model Life.Events Life.Silent.
+From DesVerif Require Import Common.Fuel Life.Model Life.Events Life.Panic Life.Silent.
 Import ListNotations.
 Open Scope N_scope.
 
@@ -85,3 +85,30 @@ Example C13_repaired_on_witnesses :
   others 0 (items (events_of (trace_p false false w_sc))) <> others 0 (items (events_of (trace w_sc))) /\
   others 0 (items (events_of (trace_p true false c_sc))) <> others 0 (items (events_of (trace c_sc))).
 Proof. unfold silent_ok. vm_compute. repeat split; try reflexivity; discriminate. Qed.
+
+(* (c) errors_exact / stereotype_in_force against a runtime that samples the stereotype BEFORE the callback
+   (seeded change stereotype_snapshot_before_callback; the code reads it when the panic is caught, and so does
+   [catch]).  One handle_message in isolation: the handler switches to the catching stereotype and panics; the
+   snapshot variant still reports a PanicError although the stereotype in force at the panic catches. *)
+Definition handle_message_snap (k : N) (c : modcfg) (now m x : N) (s : xs) : xs :=
+  if active (w_mod (x_w s) m) then
+    let snap := catchf (w_mod (x_w s) m) in
+    let '(s1, p) := exec k now m (CbMsg x) [] (pick_msg c x) s in
+    let w1 := set_mod (x_w s1) m (set_catchf (w_mod (x_w s1) m) snap) in    (* judge by the snapshot ... *)
+    let w2 := fst (catch c m p w1) in
+    {| x_w := set_mod w2 m (set_catchf (w_mod w2 m) (catchf (w_mod (x_w s1) m))); x_log := x_log s1 |}
+  else s.
+
+Definition s_m0 : modcfg := {| c_catch := false; c_stages := 1; c_bud := 3; c_start := [[]];
+  c_msg := [[ASetCatch true; APanic]]; c_tasks := []; c_end := [] |}.
+Definition s_sc : script := {| s_mods := [s_m0; w_m1]; s_inj := [] |}.
+Definition s_st : xs := {| x_w := init_world s_sc; x_log := [] |}.
+
+Definition s_snap : xs := handle_message_snap 2 s_m0 1 0 0 s_st.
+Definition s_real : xs := handle_message 2 s_m0 1 0 0 s_st.     (* the model (the code as it is) on the same input *)
+
+Lemma C13_pinned_snapshot_refuted :
+  x_log s_snap = [ICall 0 (CbMsg 0) 1 true; ISetCatch 0 0 true; IPanic 0 0 true] /\
+  w_err (x_w s_snap) = [(false, 0)] /\ perrs s_sc (x_log s_snap) = [] /\
+  x_log s_real = x_log s_snap /\ w_err (x_w s_real) = [] /\ perrs s_sc (x_log s_real) = [].
+Proof. vm_compute. repeat split; reflexivity. Qed.
